@@ -502,8 +502,13 @@ def parseQuotedDec (v : String) : Option Int :=
     let b := (cs.dropWhile (· != '.')).drop 1
     if b.length == 18 && cs.length == a.length + 19 then digitsToInt (a ++ b) else none
 
+/-- an owner as `Address.UnmarshalJSON` accepts it and `String()` prints it: empty, or 40 lower-case hex digits -/
+def aclOwnerOK (o : List Char) : Bool :=
+  o.isEmpty || (o.length == 40 && o.all fun c => c.isDigit || ('a' ≤ c && c ≤ 'f'))
+
+/-- an address as its JSON form admits it: the empty string (no address) or 40 lower-case hex digits -/
 def parseQuotedAddr (v : String) : Option Addr :=
-  (unquote v).bind fun cs => if cs.length == 40 then some (String.ofList cs) else none
+  (unquote v).bind fun cs => if aclOwnerOK cs then some (String.ofList cs) else none
 
 /-- strip a literal prefix -/
 def stripPrefix : List Char → List Char → Option (List Char)
@@ -516,10 +521,6 @@ def untilQuote (cs : List Char) : Option (List Char × List Char) :=
   match cs.dropWhile (· != '"') with
   | _ :: rest => some (cs.takeWhile (· != '"'), rest)
   | [] => none
-
-/-- an owner as `Address.UnmarshalJSON` accepts it and `String()` prints it: empty, or 40 lower-case hex digits -/
-def aclOwnerOK (o : List Char) : Bool :=
-  o.isEmpty || (o.length == 40 && o.all fun c => c.isDigit || ('a' ≤ c && c ≤ 'f'))
 
 /-- entries `{"acl_key":"K","address":"A"}` separated by commas, up to the closing `]}` -/
 def parseAclEntries : Nat → List Char → Option (List (String × Addr))
